@@ -342,13 +342,16 @@ def abort_content(case, lines):
         elif t[0] == "session":
             try: _, s = next(si)
             except StopIteration: break
-            for o in s.ops:
+            for oi, o in enumerate(s.ops):
                 for e in o.ev:
                     if e.startswith(("write_end MK(", "write_end TR(")) and " MapEqualsChecker " in e:
                         r = e.split(" ")[1][3:-1]; st = e.split(" ")[3]
                         if st == "None": val.pop(r, None)
                         else: val[r] = st[5:-1]
-                if o.result in ("abort hidden", "abort overlap") and o.ev and o.ev[-1].startswith(("write_start MK(", "write_start TR(")):
+                # the content is observed at the END of the session: only valid when nothing ran after the abort (a caller
+                # that goes on using the session after the abort may legitimately write the resource again)
+                later = any(x.ev for x in s.ops[oi + 1:])
+                if not later and o.result in ("abort hidden", "abort overlap") and o.ev and o.ev[-1].startswith(("write_start MK(", "write_start TR(")):
                     r = o.ev[-1].split(" ")[1][3:-1]
                     fsd = dict(x.split(":") for x in plist(s.fs or "[]"))
                     kind = [ln for ln in case.body if ln.startswith("task ")]
